@@ -5,6 +5,7 @@ import (
 	"os"
 	"sort"
 	"syscall"
+	"time"
 
 	"bazil.org/fuse"
 )
@@ -650,6 +651,9 @@ func (c *Conn) WalWriteTx(prog WalTxProgram, ref *Image) TxResult {
 	}
 	if at, e := c.WalBeginRead(); e != 0 {
 		return fail(at, e)
+	}
+	if c.PauseAfterWalRead > 0 {
+		time.Sleep(c.PauseAfterWalRead)
 	}
 	if at, e := c.WalBeginWrite(); e != 0 {
 		return fail(at, e)
